@@ -83,6 +83,74 @@ fn main() {
             let v = rtl::dump_all(&ir, a.get(4).map(|s| s.as_str()));
             std::fs::write(&a[3], v.to_string()).unwrap();
         }
+        "clif" => {
+            // experimental: CLIF text of the JIT + buffer layout of the top module's ports
+            use veryl_simulator::ir::{Config, build_ir};
+            let ir = analyze(&code, path).expect("analyze");
+            let top = veryl_parser::resource_table::insert_str(&a[3]);
+            let config = Config { use_jit: true, dump_cranelift: true, ..Default::default() };
+            let sim_ir = build_ir(&ir, top, &config).expect("simulator ir");
+            // one JSON line after the CLIF text the simulator printed while building
+            let base_ff = sim_ir.ff_values.as_ptr() as usize;
+            let base_comb = sim_ir.comb_values.as_ptr() as usize;
+            let mut vars = Vec::new();
+            let port_ids: std::collections::HashMap<_, _> = sim_ir.ports.iter().map(|(p, id)| (*id, p.to_string())).collect();
+            for (id, v) in &sim_ir.module_variables.variables {
+                let mut elems = Vec::new();
+                for (k, cur) in v.current_values.iter().enumerate() {
+                    let p = *cur as usize;
+                    let (kind, off) = if p >= base_ff && p < base_ff + sim_ir.ff_values.len() {
+                        ("ff", p - base_ff)
+                    } else {
+                        ("comb", p.wrapping_sub(base_comb))
+                    };
+                    let next = v.next_values.get(k).map(|n| (*n as usize).wrapping_sub(base_ff));
+                    elems.push(serde_json::json!({"kind": kind, "off": off, "next_off": next}));
+                }
+                vars.push(serde_json::json!({
+                    "path": v.path.to_string(), "port": port_ids.get(id), "width": v.width,
+                    "native_bytes": v.native_bytes, "elems": elems,
+                }));
+            }
+            println!("LAYOUT {}", serde_json::json!({
+                "vars": vars, "ff_bytes": sim_ir.ff_values.len(), "comb_bytes": sim_ir.comb_values.len(),
+                "children": sim_ir.module_variables.children.len(),
+                "comb_passes": sim_ir.required_comb_passes,
+            }));
+        }
+        "jitdiff" => {
+            // native replay of a CLIF-miter counterexample: the real JIT engine vs the real interpreter
+            use veryl_analyzer::value::Value;
+            use veryl_simulator::Simulator;
+            use veryl_simulator::ir::{Config, build_ir};
+            let ir = analyze(&code, path).expect("analyze");
+            let top = veryl_parser::resource_table::insert_str(&a[3]);
+            let stim: serde_json::Value =
+                serde_json::from_str(&std::fs::read_to_string(&a[4]).expect("stim")).expect("json");
+            let mut outs = Vec::new();
+            for jit in [false, true] {
+                let config = Config { use_jit: jit, ..Default::default() };
+                let sim_ir = build_ir(&ir, top, &config).expect("simulator ir");
+                let widths: std::collections::HashMap<String, usize> = sim_ir
+                    .ports
+                    .iter()
+                    .filter_map(|(p, id)| sim_ir.module_variables.variables.get(id).map(|v| (p.to_string(), v.width)))
+                    .collect();
+                let mut sim = Simulator::new(sim_ir, None);
+                for (k, v) in stim["inputs"].as_object().expect("inputs") {
+                    let x = u128::from_str_radix(v.as_str().unwrap(), 16).unwrap();
+                    sim.set(k, Value::from_u128(x, 0, *widths.get(k).unwrap_or(&128), false));
+                }
+                let mut row = serde_json::Map::new();
+                for o in stim["outputs"].as_array().expect("outputs") {
+                    let name = o.as_str().unwrap();
+                    let v = sim.get(name).map(|v| format!("{:x}", v.payload_u128())).unwrap_or_default();
+                    row.insert(name.to_string(), serde_json::Value::String(v));
+                }
+                outs.push(serde_json::Value::Object(row));
+            }
+            println!("{}", serde_json::json!({"interpreter": outs[0], "jit": outs[1], "differ": outs[0] != outs[1]}));
+        }
         "replay" => {
             let ir = analyze(&code, path).expect("analyze");
             let stim: serde_json::Value =
